@@ -282,3 +282,155 @@ func runRemoteParamsUsed(c *Ctx, rule string) {
 		c.Undecided(rule, "remote / Connection methods", "fewer than 60 parameters found ("+sprint(n)+")")
 	}
 }
+
+// ---- C19-K5: caller-chosen names are escaped before they become part of a request path.
+//
+// Branch and pool names are arbitrary strings (`feature/x`, `fix#12`).  Direct access uses them as
+// they are; the client puts them into a URL path, where they only address the same branch if every
+// such element is percent-escaped.  Forward taint from each string parameter of a Connection
+// method: it may reach the path argument of NewRequest only through url.PathEscape / urlPath.
+func runClientPathEscaping(c *Ctx, rule string) {
+	p := c.P
+	c.Rule(rule, "in api/client every string parameter of a Connection method that ends up in the path of a request goes through url.PathEscape (urlPath) first — through helpers as well; a name joined into the path unescaped addresses another (or no) resource on the service")
+	sanitizer := map[string]bool{"net/url.PathEscape": true, "api/client.urlPath": true, "net/url.QueryEscape": true}
+	type key struct {
+		fn  *ssa.Function
+		idx int
+	}
+	memo := map[key]struct{ hitPath, ret bool }{}
+	var pathHit token.Pos
+	var flow func(fn *ssa.Function, start ssa.Value, depth int) (bool, bool)
+	flow = func(fn *ssa.Function, start ssa.Value, depth int) (hitPath bool, reachesReturn bool) {
+		seen := map[ssa.Value]bool{}
+		var work []ssa.Value
+		push := func(v ssa.Value) {
+			if v != nil && !seen[v] {
+				seen[v] = true
+				work = append(work, v)
+			}
+		}
+		push(start)
+		for len(work) > 0 {
+			v := work[len(work)-1]
+			work = work[:len(work)-1]
+			refs := v.Referrers()
+			if refs == nil {
+				continue
+			}
+			for _, r := range *refs {
+				switch x := r.(type) {
+				case *ssa.Store:
+					if x.Val == v {
+						// element of a varargs array / local variable
+						switch a := x.Addr.(type) {
+						case *ssa.IndexAddr:
+							push(a.X)
+						case *ssa.Alloc:
+							push(a)
+						}
+					}
+				case *ssa.Slice:
+					push(x)
+				case *ssa.IndexAddr:
+					if x.X == v {
+						push(x)
+					}
+				case *ssa.UnOp:
+					push(x)
+				case *ssa.Phi:
+					push(x)
+				case *ssa.BinOp:
+					if x.Op == token.ADD {
+						push(x)
+					}
+				case *ssa.MakeInterface:
+					push(x)
+				case *ssa.Convert:
+					push(x)
+				case *ssa.ChangeType:
+					push(x)
+				case *ssa.Return:
+					reachesReturn = true
+				case ssa.CallInstruction:
+					cc := x.Common()
+					nm := calleeName(cc)
+					if sanitizer[nm] {
+						continue
+					}
+					if nm == "(*api/client.Connection).NewRequest" {
+						if len(cc.Args) > 3 && cc.Args[3] == v {
+							hitPath = true
+							pathHit = x.Pos()
+						}
+						continue
+					}
+					callee := cc.StaticCallee()
+					if callee != nil && callee.Blocks != nil && p.PkgOf(callee) == "api/client" && depth < 3 {
+						for i, a := range cc.Args {
+							if a != v || i >= len(callee.Params) {
+								continue
+							}
+							k := key{callee, i}
+							res, ok := memo[k]
+							if !ok {
+								memo[k] = struct{ hitPath, ret bool }{}
+								h, rt := flow(callee, callee.Params[i], depth+1)
+								res = struct{ hitPath, ret bool }{h, rt}
+								memo[k] = res
+							}
+							if res.hitPath {
+								hitPath = true
+							}
+							if res.ret {
+								if val, ok := x.(ssa.Value); ok {
+									push(val)
+								}
+							}
+						}
+						continue
+					}
+					if b, ok := cc.Value.(*ssa.Builtin); ok && (b.Name() == "append" || b.Name() == "copy") {
+						if val, ok := x.(ssa.Value); ok {
+							push(val)
+						}
+						continue
+					}
+					// joins that keep the raw text: the result carries the taint
+					switch nm {
+					case "path.Join", "fmt.Sprintf", "strings.Join", "fmt.Sprint", "net/url.JoinPath":
+						if val, ok := x.(ssa.Value); ok {
+							push(val)
+						}
+					}
+				}
+			}
+		}
+		return
+	}
+	n := 0
+	for _, fn := range p.FuncsIn("api/client") {
+		if fn.Parent() != nil || fn.Signature.Recv() == nil || namedOf(fn.Signature.Recv().Type()) != "api/client.Connection" || !ast_IsExported(fn.Name()) || fn.Name() == "NewRequest" {
+			continue
+		}
+		for i, prm := range fn.Params {
+			if i == 0 {
+				continue
+			}
+			if b, ok := prm.Type().Underlying().(*types.Basic); !ok || b.Kind() != types.String {
+				continue
+			}
+			n++
+			pathHit = token.NoPos
+			hit, _ := flow(fn, prm, 0)
+			construct := fnName(fn) + " parameter " + prm.Name()
+			if hit {
+				c.Fail(rule, construct, pathHit, "this caller-chosen string reaches the request path without being percent-escaped: a branch or pool name containing `/`, `#`, `?` or `%` addresses another route on the service, so the operation fails or acts on another branch although direct access succeeds")
+			} else {
+				c.OK(rule, construct, prm.Pos(), "escaped before it enters the path (or not part of the path)")
+			}
+		}
+	}
+	if n < 12 {
+		c.Undecided(rule, "api/client.Connection", "fewer than 12 string parameters found ("+sprint(n)+")")
+	}
+}
